@@ -96,6 +96,7 @@ var chkShared = vf.Register("shared_proto", func(k *vf.C, c *SharedCase) error {
 		return nil
 	}
 	opts := lua.Options{MinimizeStackMemory: c.MinStack}
+	before := snapshot(proto) // before anything has run it
 	budget := e1.BudgetFor(r)
 	seq := e1.RunGopher(c.Src, &e1.GOpts{Proto: proto, Budget: budget.Budget, MaxEvents: budget.MaxEvents, Options: opts})
 	if seq.Panic != "" || seq.Overrun != "" {
@@ -103,7 +104,6 @@ var chkShared = vf.Register("shared_proto", func(k *vf.C, c *SharedCase) error {
 		return nil
 	}
 	want := traceOf(seq)
-	before := snapshot(proto)
 	old := runtime.GOMAXPROCS(c.Procs)
 	defer runtime.GOMAXPROCS(old)
 	var wg sync.WaitGroup
